@@ -106,9 +106,23 @@ pub fn install_panic_hook() {
             let bt = std::backtrace::Backtrace::force_capture().to_string();
             bt.lines().any(|l| (l.contains("bourse_book::") || l.contains("bourse_de::") || l.contains("bourse_macros::")) && !l.contains("bourse_verif"))
         };
+        if !in_bourse {
+            // kept for the report of a panic that escapes the per-case guards (any thread)
+            let mut g = HARNESS_PANIC.lock().unwrap_or_else(|e| e.into_inner());
+            if g.is_none() {
+                *g = Some(format!("{} at {}", msg, loc));
+            }
+        }
         LAST_PANIC.with(|p| *p.borrow_mut() = format!("{} at {}", msg, loc));
         LAST_PANIC_IN_BOURSE.with(|p| *p.borrow_mut() = in_bourse);
     }));
+}
+
+static HARNESS_PANIC: Mutex<Option<String>> = Mutex::new(None);
+
+/// first panic raised outside bourse code in any thread of this process
+pub fn first_harness_panic() -> String {
+    HARNESS_PANIC.lock().unwrap_or_else(|e| e.into_inner()).clone().unwrap_or_default()
 }
 
 pub fn last_panic() -> String {
